@@ -247,3 +247,8 @@ func (p *VerifPending) IsReq(ptr interface{}) bool {
 }
 
 func (v *VerifCarried) Message() *Message { return v.r.msg }
+
+// VerifPing runs the real keep-alive goroutine (a ping every two minutes through the real send path).
+func (c *RemoteClient) VerifPing(ctx context.Context, interrupt <-chan interface{}) error {
+	return c.ping(ctx, interrupt)
+}
